@@ -1,5 +1,6 @@
 import KvarnModel.Drv.Util
 import KvarnModel.Quoted
+import KvarnModel.CtlShutdown
 namespace Drv.C19
 open Wire Drv Quoted
 
@@ -21,6 +22,15 @@ def handle : List String → Option String
     input.map fun i =>
       let r := dispatch pingOnly i
       s!"close={boolStr r.close} data={hexOfChars r.data}"
+  -- builtin <request hex> : `shutdown …` / `wait …` on a fresh instance — refused (and nothing changed) or accepted
+  | ["builtin", h] => do
+    let s ← charsOfHex h
+    match split s with
+    | name :: args =>
+      let r ← if name = "shutdown".toList then some (CtlShutdown.shutdown args {})
+        else if name = "wait".toList then some (CtlShutdown.wait args {}) else none
+      pure (if r.1 then (if r.2 == ({} : CtlShutdown.Inst) then "builtin:refused" else "builtin:refused-but-changed") else "builtin:accepted")
+    | [] => none
   -- cli <command hex> [argument hexes]: the kvarnctl binary against an instance with the plugins `cliNames`
   | ["cli", c, l] => do
     let cmd ← charsOfHex c
